@@ -205,12 +205,22 @@ impl Sys {
         }
     }
 
+    /// The name events must carry: the requested one, minus one trailing slash (the library's documented
+    /// normalisation, pinned by its own test `connect_request_strips_trailing_slash`).
+    fn expected_app(&self) -> String {
+        let mut a = self.sc.app.clone();
+        if a.ends_with('/') {
+            a.pop();
+        }
+        a
+    }
+
     fn server_app(&mut self) {
         if let Some(e) = self.s_events.pop_front() {
             self.trace.push(format!("server app handles {}", ev_name_s(&e)));
             match e {
                 ServerSessionEvent::ConnectionRequested { request_id, app_name } => {
-                    if app_name != self.sc.app {
+                    if app_name != self.expected_app() {
                         self.tags_ok = false;
                         self.errors.push(format!("connection requested for app {:?}, client asked for {:?}", app_name, self.sc.app));
                     }
@@ -218,14 +228,14 @@ impl Sys {
                     self.server_obs(o, "accept_request(connect)");
                 }
                 ServerSessionEvent::PublishStreamRequested { request_id, app_name, stream_key, .. } => {
-                    if app_name != self.sc.app || stream_key != self.sc.key {
+                    if app_name != self.expected_app() || stream_key != self.sc.key {
                         self.errors.push(format!("publish requested as {:?}/{:?}, client asked for {:?}/{:?}", app_name, stream_key, self.sc.app, self.sc.key));
                     }
                     let o = self.s.step(&SAct::Accept { id: request_id });
                     self.server_obs(o, "accept_request(publish)");
                 }
                 ServerSessionEvent::PlayStreamRequested { request_id, app_name, stream_key, stream_id, .. } => {
-                    if app_name != self.sc.app || stream_key != self.sc.key {
+                    if app_name != self.expected_app() || stream_key != self.sc.key {
                         self.errors.push(format!("play requested as {:?}/{:?}, client asked for {:?}/{:?}", app_name, stream_key, self.sc.app, self.sc.key));
                     }
                     let o = self.s.step(&SAct::Accept { id: request_id });
@@ -234,25 +244,25 @@ impl Sys {
                     self.s_sent = 0;
                 }
                 ServerSessionEvent::AudioDataReceived { app_name, stream_key, data, timestamp } => {
-                    if app_name != self.sc.app || stream_key != self.sc.key {
+                    if app_name != self.expected_app() || stream_key != self.sc.key {
                         self.errors.push(format!("audio tagged {:?}/{:?}", app_name, stream_key));
                     }
                     self.received.push(Got::Audio { ts: timestamp.value, data: data.to_vec() });
                 }
                 ServerSessionEvent::VideoDataReceived { app_name, stream_key, data, timestamp } => {
-                    if app_name != self.sc.app || stream_key != self.sc.key {
+                    if app_name != self.expected_app() || stream_key != self.sc.key {
                         self.errors.push(format!("video tagged {:?}/{:?}", app_name, stream_key));
                     }
                     self.received.push(Got::Video { ts: timestamp.value, data: data.to_vec() });
                 }
                 ServerSessionEvent::StreamMetadataChanged { app_name, stream_key, metadata } => {
-                    if app_name != self.sc.app || stream_key != self.sc.key {
+                    if app_name != self.expected_app() || stream_key != self.sc.key {
                         self.errors.push(format!("metadata tagged {:?}/{:?}", app_name, stream_key));
                     }
                     self.received.push(Got::Meta(metadata));
                 }
                 ServerSessionEvent::PublishStreamFinished { app_name, stream_key } | ServerSessionEvent::PlayStreamFinished { app_name, stream_key } => {
-                    if app_name != self.sc.app || stream_key != self.sc.key {
+                    if app_name != self.expected_app() || stream_key != self.sc.key {
                         self.errors.push(format!("finished event tagged {:?}/{:?}", app_name, stream_key));
                     }
                     self.finished += 1;
@@ -569,6 +579,16 @@ pub fn run(run: &Run) {
                     }
                 }
             }
+        }
+    }
+    // application names and stream keys that expose trimming, case folding, truncation, slash handling
+    for (app, key) in [("live/", "stream1"), ("A pp/", "K1 ?a=b&c%20 "), ("a//", " k\u{e9}\u{0}2"), ("/", "")] {
+        for modes in [vec![true], vec![false], vec![true, false]] {
+            let mut sc = mk(true, &vec![Item::Meta(7), Item::Audio { ts: 5, len: 3 }, Item::Video { ts: 9, len: 200 }], (128, 4096), (2_500_000, 1_073_741_824));
+            sc.modes = modes;
+            sc.app = app.to_string();
+            sc.key = key.to_string();
+            jobs.push((sc, 0, Mode::Default));
         }
     }
     // long activities: hundreds of items (counters, sequence numbers, per-item state), default and 7-byte delivery
